@@ -8,7 +8,6 @@
 #include "hfile_priv.h"
 
 typedef ann_type h4v_atype;
-typedef unsigned char h4v_u8;
 
 /* ------------------------------------------------------------------------------------------
  * Ghost model of ONE stored annotation element and ONE open access id (trusted stubs of the
@@ -32,14 +31,22 @@ static int32  g_ann_id;
 int32 g_k;
 /* ghost index into the caller's buffer for "bytes outside the result are unchanged" */
 int32 g_o;
+/* ghost: the caller's buffer and the index of the label terminator (set by the harness) */
+static char *g_annbuf;
+static int32 g_t;
+typedef unsigned char h4v_u8;
+h4v_u8 nondet_h4v_u8(void);
 
 /* the H layer refused although the request was legal (no such element, I/O error, no memory) */
 static int g_hfail;
+static int g_endfail; /* an Hendaccess reported failure */
 /* offset of the text inside the element: 4 (target tag/ref prefix) for data annotations */
 #define H4V_OFF ((g_tag == DFTAG_DIL || g_tag == DFTAG_DIA) ? 4 : 0)
 
-int   nondet_int(void);
-int32 nondet_int32(void);
+H4V_DECL_ND(int32);
+H4V_DECL_ND(int);
+H4V_DECL_ND(uint16);
+H4V_DECL_ND(h4v_atype);
 
 void *
 HAatom_object(atom_t atm)
@@ -50,8 +57,9 @@ HAatom_object(atom_t atm)
 int32
 Hstartread(int32 file_id, uint16 tag, uint16 ref)
 {
+    H4V_ND(int, hstartread_fails);
     H4V_CHECK(g_open == 0, "Hstartread: no aid is open yet");
-    if (file_id != g_file || tag != g_tag || ref != g_ref || nondet_int()) {
+    if (file_id != g_file || tag != g_tag || ref != g_ref || hstartread_fails) {
         g_hfail = 1; /* no such element, or the H layer fails (no memory, I/O) */
         return FAIL;
     }
@@ -65,8 +73,9 @@ int
 Hinquire(int32 access_id, int32 *pfile_id, uint16 *ptag, uint16 *pref, int32 *plength, int32 *poffset,
          int32 *pposn, int16 *paccess, int16 *pspecial)
 {
+    H4V_ND(int, hinquire_fails);
     H4V_CHECK(access_id == H4V_AID && g_open == 1, "Hinquire: on the open aid");
-    if (nondet_int()) {
+    if (hinquire_fails) {
         g_hfail = 1;
         return FAIL;
     }
@@ -92,7 +101,8 @@ Hinquire(int32 access_id, int32 *pfile_id, uint16 *ptag, uint16 *pref, int32 *pl
 int32
 Hlength(int32 file_id, uint16 tag, uint16 ref)
 {
-    if (file_id != g_file || tag != g_tag || ref != g_ref || nondet_int()) {
+    H4V_ND(int, hlength_fails);
+    if (file_id != g_file || tag != g_tag || ref != g_ref || hlength_fails) {
         g_hfail = 1;
         return FAIL;
     }
@@ -105,10 +115,11 @@ int32
 Hread(int32 access_id, int32 length, void *data)
 {
     int32 n;
+    H4V_ND(int, hread_fails);
     H4V_CHECK(access_id == H4V_AID && g_open == 1, "Hread: on the open aid");
     if (data == NULL || length < 0)
         return FAIL; /* DFE_ARGS / DFE_BADSEEK: the caller's fault, not an H-layer failure */
-    if (nondet_int()) {
+    if (hread_fails) {
         g_hfail = 1;
         return FAIL;
     }
@@ -119,13 +130,27 @@ Hread(int32 access_id, int32 length, void *data)
     if (length == 0 && n > 0)
         g_zero_req = 1;
     H4V_CHECK(!(length == 0 && n > 0), "Hread(aid,0,buf) issued although bytes remain: reads to the END of the element");
-#if defined(H4V_CBMC) && !defined(H4V_CEX)
-    /* proof mode: all n bytes of the destination are written (arbitrary values), the byte that
-       corresponds to the ghost text index g_k carries the stored value: sound for every g_k */
+#if defined(H4V_CBMC) && !defined(H4V_CEX) && !defined(H4V_FULLCOPY)
+    /* proof mode, sparse model of the n-byte transfer (no symbolic-length copy): the first and the
+       last byte of the destination range are written (so the range [data, data+n) is checked
+       against the object bounds and the frame), the byte that corresponds to the ghost text index
+       g_k receives the stored value, and every other byte of the range that a contract clause
+       observes (g_o, g_t) receives an arbitrary value.  For every fixed byte this admits at
+       least the behaviours of the real copy, so the per-ghost-byte clauses are proved for all. */
     if (n > 0) {
-        __CPROVER_havoc_slice(data, (__CPROVER_size_t)n);
-        if (g_k >= 0 && g_k <= g_stored - 1 - H4V_OFF && g_k + H4V_OFF >= g_posn && g_k + H4V_OFF - g_posn < n)
-            ((uint8 *)data)[g_k + H4V_OFF - g_posn] = g_elem[g_k + H4V_OFF];
+        ((uint8 *)data)[0]     = nondet_h4v_u8();
+        ((uint8 *)data)[n - 1] = nondet_h4v_u8();
+        if ((char *)data == g_annbuf) {
+            if (g_o >= 0 && g_o < n)
+                ((uint8 *)data)[g_o] = nondet_h4v_u8();
+            if (g_t >= 0 && g_t < n)
+                ((uint8 *)data)[g_t] = nondet_h4v_u8();
+        }
+        if (g_posn <= g_stored - 1 && 0 < n && n - 1 <= g_stored - 1 - g_posn) {
+            /* bytes 0 and n-1 are the stored ones when they are the ghost byte; in general: */
+            if (g_k >= 0 && g_k <= g_stored - 1 - H4V_OFF && g_k + H4V_OFF >= g_posn && g_k + H4V_OFF - g_posn < n)
+                ((uint8 *)data)[g_k + H4V_OFF - g_posn] = g_elem[g_k + H4V_OFF];
+        }
     }
 #else
     for (int32 i = 0; i < n; i++)
@@ -138,10 +163,13 @@ Hread(int32 access_id, int32 length, void *data)
 int
 Hendaccess(int32 access_id)
 {
-    H4V_CHECK(access_id == H4V_AID && g_open == 1, "Hendaccess: on the open aid, once");
+    H4V_ND(int, hendaccess_fails);
+    /* a second Hendaccess on the same aid is tolerated only after the first one reported failure */
+    H4V_CHECK(access_id == H4V_AID && (g_open == 1 || g_endfail), "Hendaccess: on the open aid");
     g_open = 0;
-    if (nondet_int()) {
-        g_hfail = 1;
+    if (hendaccess_fails) {
+        g_hfail   = 1;
+        g_endfail = 1;
         return FAIL;
     }
     return SUCCEED;
@@ -200,7 +228,7 @@ static int ANIreadann(int32 ann_id, char *ann, int32 maxlen)
     __CPROVER_requires(g_stored >= 0 && maxlen >= 0 && g_open == 0 && g_nstart == 0 && g_zero_req == 0 && g_hfail == 0)
     __CPROVER_requires(ann != NULL)
     /* frame: ONLY the caller's maxlen bytes (and the stubs' ghost bookkeeping) */
-    __CPROVER_assigns(maxlen > 0: __CPROVER_object_upto(ann, (__CPROVER_size_t)maxlen); g_open, g_nstart, g_posn, g_zero_req, g_hfail)
+    __CPROVER_assigns(maxlen > 0: __CPROVER_object_upto(ann, (__CPROVER_size_t)maxlen); g_open, g_nstart, g_posn, g_zero_req, g_hfail, g_endfail)
     __CPROVER_ensures(__CPROVER_return_value == SUCCEED || __CPROVER_return_value == FAIL)
     /* every access id obtained is released again, on success and on failure */
     __CPROVER_ensures(g_open == 0 && g_nstart <= 1)
@@ -222,11 +250,6 @@ static int ANIreadann(int32 ann_id, char *ann, int32 maxlen)
 #endif
 
 /* ---------------- harnesses ---------------- */
-H4V_DECL_ND(int32);
-H4V_DECL_ND(int);
-H4V_DECL_ND(uint16);
-H4V_DECL_ND(h4v_atype);
-H4V_DECL_ND(h4v_u8);
 
 /* key codec: AN_CREATE_KEY / AN_KEY2REF / AN_KEY2TYPE (macros of mfan_priv.h) */
 void
@@ -337,6 +360,7 @@ mk_ann_env(void)
     g_nstart = 0;
     g_zero_req = 0;
     g_hfail = 0;
+    g_endfail = 0;
     g_posn = 0;
     H4V_ND_BUF(h4v_u8, elem, g_stored, H4V_ELEM_CAP);
     g_elem = elem;
@@ -362,15 +386,21 @@ h_ANIannlen(void)
     H4V_CANARY("ANIannlen end");
 }
 
-void
-h_ANIreadann(void)
+static void
+readann_body(int exclude_d14)
 {
     mk_ann_env();
     H4V_ND(int32, ann_id);
     H4V_ND(int32, maxlen);
     H4V_ASSUME(maxlen >= 0);
+    /* D14 inputs: the room clamps the transfer to 0 bytes although text is stored
+       (label with maxlen == 1, description with maxlen == 0) */
+    if (exclude_d14)
+        H4V_ASSUME(!(AN_ROOM(maxlen) == 0 && AN_TEXTLEN > 0));
     H4V_ND_BUF(char, ann, maxlen, H4V_ELEM_CAP);
     H4V_ASSUME(g_o >= 0);
+    g_annbuf = ann;
+    g_t      = AN_NCOPY(maxlen);
     char old_o = g_o < maxlen ? ann[g_o] : 0;
     int  r     = ANIreadann(ann_id, ann, maxlen);
     /* nothing but the text (and the terminator of a label) is touched; on failure before the read nothing */
@@ -379,8 +409,24 @@ h_ANIreadann(void)
     H4V_CHECK(!(r == FAIL && g_nstart == 0 && g_o < maxlen) || ann[g_o] == old_o,
               "ANIreadann: buffer untouched when the element could not be opened");
     H4V_COVER(r == FAIL, "readann fail");
+    H4V_COVER(r == FAIL && g_endfail, "readann Hendaccess failure path");
     H4V_COVER(r == SUCCEED && g_tag == DFTAG_DIL && AN_TEXTLEN > maxlen - 1, "readann data label truncated");
     H4V_COVER(r == SUCCEED && g_tag == DFTAG_DIA && AN_TEXTLEN < maxlen, "readann data desc short");
     H4V_COVER(r == SUCCEED && g_tag == DFTAG_FD, "readann file desc");
+    H4V_COVER(r == SUCCEED && g_tag == DFTAG_FID && maxlen > 1 && AN_TEXTLEN == 0, "readann empty file label");
     H4V_CANARY("ANIreadann end");
+}
+
+/* all inputs the contract admits (fails on the D14 inputs: kept, reported) */
+void
+h_ANIreadann(void)
+{
+    readann_body(0);
+}
+
+/* the same contract on the complement of the D14 inputs */
+void
+h_ANIreadann_room(void)
+{
+    readann_body(1);
 }
